@@ -1,8 +1,85 @@
 import Ypv.Drv.Codec
-/-! Driver handler for C06 (stub: replaced by the module that models C06) -/
+import Ypv.Model.Diff
+import Ypv.Spec.Diff
+/-! Driver handler for C06: the Differ model and its specification
+
+* `{"op":"C06.diff","l":doc,"r":doc,"arr":"position"|"value","aoh":"position"|…}` ↦
+  `{"rep":[entry…],"void":bool,"exit":0|1,"dataEq":bool,"eqv":bool,"keyed":bool,"strictClean":bool}`
+  with `entry = {"a":"same"|"change"|"add"|"delete","p":addr,"l":doc|null,"r":doc|null}`;
+  `void` says that the strict report differs from the real one (finding C06-K1's input class).
+* `{"op":"C06.sync","how":"value"|"key","xs":[doc…],"ys":[doc…]}` ↦ `{"pairs":[[li|null,ri|null]…]}`
+* `{"op":"C06.mode","ruleA":…,"cliA":…,"dfltA":…,"ruleH":…,"cliH":…,"dfltH":…}` ↦ `{"arr":…,"aoh":…}`
+* `{"op":"C06.tables"}` ↦ enum name tables.
+-/
 namespace Ypv.Drv.C06
 open Lean (Json)
+open Ypv Ypv.Drv Ypv.Diff
 
-def handle (_op : String) (_j : Json) : Except String Json := throw "C06: driver not implemented yet"
+def actionName : Action → String
+  | .same => "same" | .change => "change" | .add => "add" | .delete => "delete"
+
+def arrOfName : String → Except String ArrayMode
+  | "position" => pure .position | "value" => pure .value
+  | s => throw s!"array mode {s}"
+
+def aohOfName : String → Except String AoHMode
+  | "deep" => pure .deep | "dpos" => pure .dpos | "key" => pure .key
+  | "position" => pure .position | "value" => pure .value
+  | s => throw s!"aoh mode {s}"
+
+def arrName : ArrayMode → String
+  | .position => "position" | .value => "value"
+
+def aohName : AoHMode → String
+  | .deep => "deep" | .dpos => "dpos" | .key => "key" | .position => "position" | .value => "value"
+
+def optNode : Option Node → Json
+  | some n => nodeToJson n
+  | none => Json.null
+
+def entryToJson (e : Entry) : Json :=
+  Json.mkObj [("a", actionName e.action), ("p", addrToJson e.path), ("l", optNode e.lhs), ("r", optNode e.rhs)]
+
+def optIdx : Option (Nat × Node) → Json
+  | some (i, _) => Json.num (Lean.JsonNumber.fromNat i)
+  | none => Json.null
+
+def optMode {α : Type} (f : String → Except String α) (j : Json) (k : String) : Except String (Option α) :=
+  match j.getObjValAs? String k with
+  | .ok s => do pure (some (← f s))
+  | .error _ => pure none
+
+def handle (op : String) (j : Json) : Except String Json := do
+  match op with
+  | "diff" =>
+    let l ← nodeOfJson (← j.getObjVal? "l")
+    let r ← nodeOfJson (← j.getObjVal? "r")
+    let c : Cfg := ⟨← arrOfName (← getStr j "arr"), ← aohOfName (← getStr j "aoh")⟩
+    let rep := report c l r
+    let srep := diff true c l r
+    pure (Json.mkObj [
+      ("rep", Json.arr (rep.map entryToJson).toArray),
+      ("void", .bool (rep != srep)),
+      ("exit", Json.num (Lean.JsonNumber.fromNat (exitStatus rep))),
+      ("strictClean", .bool (clean srep)),
+      ("dataEq", .bool (dataEq c l r)),
+      ("eqv", .bool (eqv l r)),
+      ("keyed", .bool (keyed c l && keyed c r)),
+      ("wf", .bool (wf l && wf r))])
+  | "sync" =>
+    let xs ← (← getArr j "xs").toList.mapM nodeOfJson
+    let ys ← (← getArr j "ys").toList.mapM nodeOfJson
+    let pairs := if (← getStr j "how") = "key" then syncByKey xs ys else syncByValue xs ys
+    pure (Json.mkObj [("pairs", Json.arr (pairs.map (fun p => Json.arr #[optIdx p.l, optIdx p.r])).toArray)])
+  | "mode" =>
+    let c := resolveCfg (← optMode arrOfName j "ruleA") (← optMode arrOfName j "cliA") (← optMode arrOfName j "dfltA")
+               (← optMode aohOfName j "ruleH") (← optMode aohOfName j "cliH") (← optMode aohOfName j "dfltH")
+    pure (Json.mkObj [("arr", arrName c.arr), ("aoh", aohName c.aoh)])
+  | "tables" =>
+    pure (Json.mkObj [
+      ("arrays", Json.arr (arrayModeNames.map (fun x => Json.str (l2s x.1))).toArray),
+      ("aoh", Json.arr (aohModeNames.map (fun x => Json.str (l2s x.1))).toArray),
+      ("actions", Json.arr (actionNames.map (fun x => Json.str (l2s x.1))).toArray)])
+  | _ => throw s!"C06: unknown op {op}"
 
 end Ypv.Drv.C06
